@@ -27,6 +27,7 @@
   histories of any length.
 -/
 import ALV.Lemmas.C15R4
+import ALV.Lemmas.C15Src
 import ALV.Common.Audit
 
 namespace ALV.Props.C15
@@ -999,6 +1000,107 @@ example : ∀ c ∈ ([.setitem (.tuple [.ok 5, .nonStr]) (some 1), .delitem (.tu
     another default: C15.45) -/
 example : key2keys (sdRun (SD.empty : SD Nat Nat) [.set [1] 10]).1.mkd 9 = none ∧
     (sdSetDefaultName (sdRun (SD.empty : SD Nat Nat) [.set [1] 10]).1 9 20).2 = .done := by decide
+
+/-! ## round 5: the model is REGENERATED from the source (translator `harness/props/c15_tr.py`)
+
+  `ALV.Gen.C15.*` are the bodies of the methods of `audiolazy/lazy_core.py` as they are NOW, translated statement by
+  statement in source order into the model's vocabulary (monad `Except Err`; `keyErr` / `attrErr` name the exception a
+  primitive raises).  The theorems below say that they ARE the hand-written model functions that every theorem above is
+  about (`keyErr (f …)`: the model's `none` is a `KeyError`, and the regenerated code raises nothing else).  An edit of a
+  method that changes its meaning — a swapped comparison, two statements in another order, a dropped deletion, a
+  validation moved behind a mutation — breaks the corresponding theorem on the next run. -/
+
+set_option linter.unusedSectionVars false
+
+/-- **C15.S1** `MultiKeyDict.__getitem__` with a key: through `_keys_dict`, then the storage -/
+theorem src_getitem_is_model :
+    (ALV.Gen.C15.getitem : St K V → K → Except Err V) = fun s key => keyErr (getitem s key) := by
+  funext s key; exact ALV.C15.src_getitem s key
+/-- **C15.S2** `MultiKeyDict.__getitem__` with a key tuple: the storage directly -/
+theorem src_getTuple_is_model :
+    (ALV.Gen.C15.getTuple : St K V → List K → Except Err V) = fun s kt => keyErr (getTuple s kt) := rfl
+/-- **C15.S3** `key2keys` -/
+theorem src_key2keys_is_model :
+    (ALV.Gen.C15.key2keys : St K V → K → Except Err (List K)) = fun s key => keyErr (key2keys s key) := rfl
+/-- **C15.S4** `value2keys` never raises -/
+theorem src_value2keys_is_model : (ALV.Gen.C15.value2keys : St K V → V → List K) = value2keys := rfl
+/-- **C15.S5** `MultiKeyDict.__iter__` -/
+theorem src_iterValues_is_model : (ALV.Gen.C15.iterValues : St K V → List V) = iterValues := rfl
+/-- **C15.S6** `MultiKeyDict.__delitem__`: the two look-ups, the three deletions, the re-insertion of the shortened tuple,
+    in this order -/
+theorem src_delitem_is_model :
+    (ALV.Gen.C15.delitem : St K V → K → Except Err (St K V)) = fun s key => keyErr (delitem s key) := by
+  funext s key; exact ALV.C15.src_delitem s key
+/-- **C15.S7** `MultiKeyDict.__setitem__`: merge with the value's old keys, de-duplication loop, deletion loop (calling
+    the regenerated `__delitem__`), the three assignments -/
+theorem src_setitem_is_model :
+    (ALV.Gen.C15.setitem : St K V → List K → V → Except Err (St K V)) = fun s keys v => keyErr (setitem s keys v) := by
+  funext s keys v; exact ALV.C15.src_setitem s keys v
+/-- **C15.S8** `MultiKeyDict.__setitem__` with an unhashable item in the key tuple: the statement that hashes the key
+    comes before every statement that changes a dict — the state returned with the rejection is the state given,
+    i.e. `step` on `Op.setBadKey` (read off the ORDER of the statements) -/
+theorem src_setitemBadKey_is_model (b a : List K) :
+    (ALV.Gen.C15.setitemBadKey : St K V → V → St K V × Res K V) = fun s v => step s (.setBadKey b a v) := rfl
+/-- **C15.S9** the same for an unhashable value (`value in self._inv_dict` is the first statement that hashes it) -/
+theorem src_setitemUnhashable_is_model :
+    (ALV.Gen.C15.setitemUnhashable : St K V → List K → St K V × Res K V) = fun s keys => step s (.setUnhashable keys) :=
+  rfl
+/-- **C15.S10** `StrategyDict.__delitem__`: both comparisons are made BEFORE `super().__delitem__`, the two
+    `object.__delattr__` after it; in particular the regenerated code raises `KeyError` or nothing (the
+    `AttributeError` of `object.__delattr__` / `getattr` cannot come out) -/
+theorem src_sdDelitem_is_model :
+    (ALV.Gen.C15.sdDelitem : SD K V → K → Except Err (SD K V)) = fun s key => keyErr (sdDelitem s key) := by
+  funext s key; exact ALV.C15.src_sdDelitem s key
+/-- **C15.S11** `StrategyDict.__setitem__`: the `try: del self[k] except KeyError: pass` loop, `super().__setitem__`,
+    the `setattr` loop, the default -/
+theorem src_sdSetitem_is_model :
+    (ALV.Gen.C15.sdSetitem : SD K V → List K → V → Except Err (SD K V)) = fun s keys v => keyErr (sdSetitem s keys v) := by
+  funext s keys v; exact ALV.C15.src_sdSetitem s keys v
+/-- **C15.S12** `StrategyDict.__setitem__` with an unhashable name / strategy: `hash((keys, value))` comes before the
+    deletion loop — `sdStep` on `SOp.setRefused` -/
+theorem src_sdSetBadKey_is_model (d : List K) :
+    (ALV.Gen.C15.sdSetBadKey : SD K V → V → SD K V × Res K V) = fun s _ => sdStep s (.setRefused d) := rfl
+theorem src_sdSetUnhashable_is_model :
+    (ALV.Gen.C15.sdSetUnhashable : SD K V → List K → SD K V × Res K V) = fun s keys => sdStep s (.setRefused keys) := rfl
+/-- **C15.S13** `StrategyDict.__delattr__` of a strategy name and of `default` (here `KeyError` and `AttributeError`
+    are told apart: the handler catches the first only) -/
+theorem src_sdDelattrName_is_model :
+    (ALV.Gen.C15.sdDelattrName : SD K V → K → Except Err (SD K V)) = fun s k => sdDelattr s (some k) := by
+  funext s k; exact ALV.C15.src_sdDelattrName s k
+theorem src_sdDelattrDefault_is_model :
+    (ALV.Gen.C15.sdDelattrDefault : SD K V → Except Err (SD K V)) = fun s => sdDelattr s none := by
+  funext s; exact ALV.C15.src_sdDelattrDefault s
+/-- **C15.S14** `StrategyDict.__call__` calls `self.default` with the caller's arguments; `__iter__` = the stored values -/
+theorem src_sdCall_is_model : (ALV.Gen.C15.sdCall : SD K V → Option V) = sdDefault := rfl
+theorem src_sdIter_is_model : (ALV.Gen.C15.sdIter : SD K V → List V) = sdIter := rfl
+
+/-- **C15.S15** what the tie buys: a theorem about the model is a theorem about the regenerated code.  From a coherent
+    dict, the `__setitem__` read from the source either raises `KeyError` or returns a coherent dict (C15.2) … -/
+theorem src_setitem_keeps_coherence {s s' : St K V} (h : Inv s) (keys : List K) (hk : keys ≠ []) (v : V)
+    (hs : ALV.Gen.C15.setitem s keys v = .ok s') : Inv s' := by
+  rw [ALV.C15.src_setitem] at hs
+  have := inv_step h (.set keys v) (by simpa [Op.valid] using hk)
+  cases hm : setitem s keys v with
+  | none => rw [hm] at hs; cases hs
+  | some s1 =>
+    rw [hm] at hs; cases hs
+    simpa [step, hm] using this
+/-- … and the `__delitem__` read from the source likewise -/
+theorem src_delitem_keeps_coherence {s s' : St K V} (h : Inv s) (key : K)
+    (hs : ALV.Gen.C15.delitem s key = .ok s') : Inv s' := by
+  rw [ALV.C15.src_delitem] at hs
+  have := inv_step h (.del key) (by simp [Op.valid])
+  cases hm : delitem s key with
+  | none => rw [hm] at hs; cases hs
+  | some s1 =>
+    rw [hm] at hs; cases hs
+    simpa [step, hm] using this
+
+/-- the regenerated functions run: `d[1, 2] = 10; d[3] = 10; del d[1]` on the code read from the source -/
+example : ((ALV.Gen.C15.setitem (St.empty : St Nat Nat) [1, 2] 10).bind fun s =>
+      (ALV.Gen.C15.setitem s [3] 10).bind fun s => (ALV.Gen.C15.delitem s 1).map fun s => s.store).toOption
+    = some [([2, 3], 10)] := by decide
+example : (ALV.Gen.C15.delitem (St.empty : St Nat Nat) 1).toOption.isNone = true := by decide
 
 end ALV.Props.C15
 
